@@ -187,6 +187,7 @@ R["ibldsp.voltage.decompress_destripe_cbin"] = [
 R["ibldsp.voltage.decompress_destripe_cbin.my_function"] = [
     ("V__ = spikeglx.Reader(sr_file, **reader_kwargs)", {"V__": "_sr"}),
     ("V__ = numpy.load(file_saturation, mmap_mode='r+')", {"V__": "_saturation"}),
+    ("V__ = numpy.load(file_saturation, mmap_mode='r+') if A__ else None", {"V__": "_saturation"}),
     ("V__ = int(numpy.ceil(i_chunk * CHUNK_SIZE / A__))", {"V__": "n_batch"}),
     ("V__ = (NBATCH - SAMPLES_TAPER * 2) * n_batch", {"V__": "first_s"}),
     ("V__ = A__ * n_batch", {"V__": "first_s"}),
